@@ -4,7 +4,8 @@ from ..persist import (persist_classes, rule_P1_P2, rule_P3, rule_P4_bound, rule
 
 LEVEL_TEXT = ('Static agreement of the writer, updater and reader tables extracted from the '
               'HDF5 code of the 8 persistable classes, plus definite-assignment analysis of '
-              'every constructor against the attributes the observation interface reads.')
+              'every constructor against the attributes the observation interface reads.'
+              ' Plus: reader index domains evaluated for N = 0..6, probed restore loops, type tag <-> class, layer ranges, aliased replication, memo coherence, re-derivation agreement.')
 
 # the emulator stores sklearn attributes with dynamic keys on both sides (table entry:
 # `<attr>_{i}` sweep over network.__dict__ / group.attrs); only explicit keys are checked
